@@ -466,3 +466,94 @@ def sample_repr(beh, limit=12):
     for st in beh[:limit]:
         out.append({"a": st["a"], "arg": st.get("arg"), "exp": st.get("exp")})
     return out
+
+
+# --------------------------------------------------------------------------
+# streamed, parallel replay of large behaviour dumps
+# --------------------------------------------------------------------------
+_RW = {}
+
+
+def tlc_to_file(module, cfg, path, workers=None, timeout=3000, xmx="8g", extra_env=None):
+    """Run a Gen configuration with stdout written to <path> (for dumps too big for memory)."""
+    md = os.path.join(WORK, "tlc-%s-%d" % (module, os.getpid()))
+    shutil.rmtree(md, ignore_errors=True)
+    ensure(md)
+    cmd = ["java", "-XX:+UseParallelGC", "-Xmx" + xmx, "-cp", TLA_CP, "tlc2.TLC", "-metadir", md,
+           "-noGenerateSpecTE", "-workers", str(workers or 8), "-config", cfg, module + ".tla"]
+    e = dict(os.environ)
+    if extra_env:
+        e.update(extra_env)
+    t0 = time.time()
+    with open(path, "w") as f:
+        try:
+            r = subprocess.run(cmd, cwd=SPEC, stdout=f, stderr=subprocess.STDOUT, timeout=timeout, env=e)
+        except subprocess.TimeoutExpired:
+            raise MachineryError("TLC dump timed out: " + module)
+        finally:
+            shutil.rmtree(md, ignore_errors=True)
+    tail = subprocess.run(["tail", "-n", "30", path], stdout=subprocess.PIPE, text=True).stdout
+    res = TlcResult()
+    res.rc = r.returncode
+    res.out = tail
+    res.wall = time.time() - t0
+    m = re.findall(r"(\d[\d,]*) states generated, (\d[\d,]*) distinct states found", tail)
+    if m:
+        res.generated = int(m[-1][0].replace(",", ""))
+        res.distinct = int(m[-1][1].replace(",", ""))
+    if r.returncode != 0:
+        res.error = "TLC dump failed rc=%s\n%s" % (r.returncode, tail)
+    return res
+
+
+def _replay_worker(lines):
+    exe, match, fix, nontrivial = _RW["exe"], _RW["match"], _RW["fix"], _RW["nontrivial"]
+    behs = parse_behaviours("\n".join(lines))
+    if fix:
+        for b in behs:
+            fix(b)
+    recs, _ = run_driver(exe, to_script(behs), timeout=1500)
+    mms = compare(behs, recs, match)
+    out = []
+    for mm in mms[:40]:
+        out.append({"behaviour": behs[mm["b"]], "step": mm["i"], "why": mm["why"], "record": mm["rec"], "st": mm["step"]})
+    nt = set()
+    if nontrivial:
+        by = group_records(recs)
+        for b, beh in enumerate(behs):
+            if nontrivial(by.get(b, [])):
+                nt.add(hashlib.md5(json.dumps([(s["a"], s.get("arg")) for s in beh], sort_keys=True).encode()).digest()[:8])
+    sample = sample_repr(behs[len(behs) // 2]) if behs else None
+    return len(behs), len(mms), out, nt, sample
+
+
+def replay_file(path, exe, match=default_match, fix=None, nontrivial=None, chunk=15000, procs=None):
+    """Replay every behaviour of a TLC dump file in parallel chunks.
+    Returns dict(n=, mismatches=, details=[...], nontrivial=set, samples=[...])."""
+    import multiprocessing as mp
+    _RW.update(exe=exe, match=match, fix=fix, nontrivial=nontrivial)
+
+    def chunks():
+        cur = []
+        with open(path, errors="replace") as f:
+            for ln in f:
+                if ln.startswith('<<"BEHAV", '):
+                    cur.append(ln.rstrip("\n"))
+                    if len(cur) >= chunk:
+                        yield cur
+                        cur = []
+        if cur:
+            yield cur
+
+    tot = dict(n=0, mismatches=0, details=[], nontrivial=set(), samples=[])
+    ctx = mp.get_context("fork")
+    with ctx.Pool(procs or max(2, NCPU // 2)) as pool:
+        for n, nm, det, nt, sample in pool.imap_unordered(_replay_worker, chunks()):
+            tot["n"] += n
+            tot["mismatches"] += nm
+            if len(tot["details"]) < 200:
+                tot["details"] += det
+            tot["nontrivial"] |= nt
+            if sample and len(tot["samples"]) < 3:
+                tot["samples"].append(sample)
+    return tot
